@@ -30,6 +30,7 @@ REGISTRY = {
     'X07': 'harness.x07',
     'X08': 'harness.x08',
     'X09': 'harness.x09',
+    'X10': 'harness.x10',
 }
 
 if __name__ == '__main__':
